@@ -289,9 +289,35 @@ func (d *Decimal) round() (int64, error) {
 		return 0, err
 	}
 
-	floatValue := float64(ud.n.Int64()) / math.Pow10(int(ud.scale))
-	roundedValue := math.Round(floatValue)
-	return int64(roundedValue), nil
+	n := ud.n
+	if ud.scale > 0 {
+		abs := new(big.Int).Abs(ud.n)
+		// |n| < 2^BitLen <= 2^(3*scale-1) = 8^scale/2 <= 10^scale/2: the value rounds to zero,
+		// and 10^scale need not be materialised.
+		if int64(abs.BitLen()) <= 3*int64(ud.scale)-1 {
+			return 0, nil
+		}
+
+		// Nearest integer, ties away from zero, in exact integer arithmetic.
+		pow := new(big.Int).Exp(big.NewInt(10), big.NewInt(int64(ud.scale)), nil)
+		q, r := new(big.Int).QuoRem(abs, pow, new(big.Int))
+		if r.Lsh(r, 1).Cmp(pow) >= 0 {
+			q.Add(q, big.NewInt(1))
+		}
+		if ud.n.Sign() < 0 {
+			q.Neg(q)
+		}
+		n = q
+	}
+
+	if !n.IsInt64() {
+		return 0, &strconv.NumError{
+			Func: "ParseInt",
+			Num:  d.String(),
+			Err:  strconv.ErrRange,
+		}
+	}
+	return n.Int64(), nil
 }
 
 // Truncate returns a new decimal, truncated to the given number of
